@@ -1308,7 +1308,8 @@ fn worker_handle(line: &str) -> String {
         if !fails.is_empty() && (header_chain_break(&ast, o.cbt) || nested_chain_break(&ast, o.cbt)) {
             oshapes.push("nested_chain_break");
         }
-        if !fails.is_empty() && line_wider_after_reindent(&src, o) {
+        // (rule (b) of F-C11-6: only for what rule (a) cannot decide — a line that does not even fit 255 columns)
+        if !fails.is_empty() && line_wider_after_reindent(&src, Opt { ll: 255, ..o }) {
             oshapes.push("input_line_wider_than_line_length");
         }
         // F-C11-11: a trailing / inline comment of the input stands on a line of its own after the first
@@ -2376,16 +2377,16 @@ fn mutants(src: &str, rng: &mut Rng, n: usize) -> Vec<String> {
 
 /// (finding id, shape on the input program, clause prefixes the finding can explain)
 const FINDINGS: &[(&str, &str, &[&str])] = &[
-    ("F-C11-5", "nested_chain_break", &["2:", "3:", "5:"]),
+    ("F-C11-5", "nested_chain_break", &["2:", "3:", "5~"]),
     ("F-C11-11", "trailing_comment_moved_to_own_line", &["5:idempotence"]),
     ("F-C11-6", "input_line_wider_than_line_length", &["2:", "3:", "5:"]),
-    ("F-C11-7", "fmt_skip_multiline", &["2:", "3:", "5:"]),
-    ("F-C11-12", "fmt_skip_short_span", &["2:", "3:", "5:", "6:"]),
-    ("F-C11-15", "block_in_brackets", &["2:", "3:", "5:"]),
-    ("F-C11-9", "block_expr_operand", &["2:", "3:", "5:"]),
-    ("F-C11-9", "line_starts_with_minus", &["2:", "3:", "5:"]),
-    ("F-C11-10", "comment_before_closer", &["2:", "3:", "4:", "5:"]),
-    ("F-C11-10", "comment_in_import_list", &["2:", "3:", "4:", "5:"]),
+    ("F-C11-7", "fmt_skip_multiline", &["2:", "3:", "5~"]),
+    ("F-C11-12", "fmt_skip_short_span", &["2:", "3:", "5~", "6:"]),
+    ("F-C11-15", "block_in_brackets", &["2:", "3:", "5~"]),
+    ("F-C11-9", "block_expr_operand", &["2:", "3:", "5~"]),
+    ("F-C11-9", "line_starts_with_minus", &["2:", "3:", "5~"]),
+    ("F-C11-10", "comment_before_closer", &["2:", "3:", "4:", "5~", "5:idempotence+4"]),
+    ("F-C11-10", "comment_in_import_list", &["2:", "3:", "4:", "5~"]),
 ];
 /// The class finding: clauses 2/3/5 at line_length < 255 that hold for the same program and the
 /// same other options at line_length 255 (the failure is caused by width-forced breaking).
@@ -2430,13 +2431,24 @@ impl Ctx {
         }
     }
 
-    fn attribute(&self, prog_shapes: &[String], opt_shapes: &[String], clause: &str) -> Option<&'static str> {
+    /// `all`: every failing clause of the same (program, options) pair. Clause patterns: a prefix; `5~` =
+    /// `5:error-on-own-output` / `5:panic-on-own-output` always, `5:idempotence` only when the pair also fails
+    /// clause 2 (the finding's symptom is a first-pass output that does not parse back to the same Ast — a
+    /// pure idempotence failure is NOT explained by it); `5:idempotence+4` = idempotence when clause 4 fails too.
+    fn attribute(&self, prog_shapes: &[String], opt_shapes: &[String], clause: &str, all: &[String]) -> Option<&'static str> {
         for (id, shape, clauses) in FINDINGS {
             if !self.open.iter().any(|x| x == id) || (self.width_mode && *id == WIDTH_CLASS) {
                 continue;
             }
             let has = prog_shapes.iter().any(|s| s == shape) || opt_shapes.iter().any(|s| s == shape);
-            if has && clauses.iter().any(|c| clause.starts_with(c)) {
+            let fails2 = all.iter().any(|c| c.starts_with("2:"));
+            let fails4 = all.iter().any(|c| c.starts_with("4:"));
+            let explained = clauses.iter().any(|c| match *c {
+                "5~" => clause == "5:error-on-own-output" || clause == "5:panic-on-own-output" || (clause == "5:idempotence" && fails2),
+                "5:idempotence+4" => clause == "5:idempotence" && fails4,
+                c => clause.starts_with(c),
+            });
+            if has && explained {
                 return Some(id);
             }
         }
@@ -2446,7 +2458,8 @@ impl Ctx {
     /// unattributed failing clauses of one result entry
     fn unexplained<'a>(&self, prog_shapes: &[String], r: &'a Value) -> Vec<&'a Value> {
         let oshapes: Vec<String> = r["shapes"].as_array().map(|a| a.iter().filter_map(|x| x.as_str().map(String::from)).collect()).unwrap_or_default();
-        r["fails"].as_array().map(|a| a.iter().filter(|f| self.attribute(prog_shapes, &oshapes, f["clause"].as_str().unwrap_or("")).is_none()).collect()).unwrap_or_default()
+        let all: Vec<String> = r["fails"].as_array().map(|a| a.iter().filter_map(|f| f["clause"].as_str().map(String::from)).collect()).unwrap_or_default();
+        r["fails"].as_array().map(|a| a.iter().filter(|f| self.attribute(prog_shapes, &oshapes, f["clause"].as_str().unwrap_or(""), &all).is_none()).collect()).unwrap_or_default()
     }
 
     /// Still failing `clause` (unattributed) under `opt`? Used by the shrinker.
@@ -2599,7 +2612,8 @@ impl Ctx {
             let mut narrow_failed = false;
             for f in &fails {
                 let clause = f["clause"].as_str().unwrap_or("").to_string();
-                let mut id: Option<String> = self.attribute(&shapes, &oshapes, &clause).map(String::from);
+                let all: Vec<String> = fails.iter().filter_map(|f| f["clause"].as_str().map(String::from)).collect();
+                let mut id: Option<String> = self.attribute(&shapes, &oshapes, &clause, &all).map(String::from);
                 if id.is_none() && o.ll < 255 && is_width_clause(&clause) && self.open.iter().any(|x| x == WIDTH_CLASS) {
                     let c = Opt { ll: 255, ..o };
                     if let Some(r255) = by_opt.get(&c.text()) {
